@@ -260,6 +260,43 @@ theorem C04_source_inv (c : LenCfg) (E : Env α) (hs : SortOk E) (l : List α) (
     simp only [PyL.summaryOfStep]
     exact C04_list_step_inv c E hs l op o h hst
 
+/-- The contents after each call of a history, running the *interpreted source*
+(a raising call leaves whatever the source left). -/
+def srcStates (c : LenCfg) (E : Env α) : List α → List (Op α) → List (List α)
+  | _, [] => []
+  | l, op :: ops =>
+    let l' := match PyL.runTraitListObjectOp Generated.listHelpers Generated.traitListProg
+        Generated.traitListObjectProg c E l op with
+      | .done items _ _ => items
+      | .raised _ items _ => items
+    l' :: srcStates c E l' ops
+
+/-- **At every moment of every history of the interpreted source** the list
+satisfies the invariant (induction over the operation list; no bound). -/
+theorem C04_source_history (c : LenCfg) (E : Env α) (hs : SortOk E) (l : List α) (ops : List (Op α))
+    (h : Inv c E l) : ∀ s ∈ srcStates c E l ops, Inv c E s := by
+  induction ops generalizing l with
+  | nil => intro s hsm; simp [srcStates] at hsm
+  | cons op ops ih =>
+    intro s hsm
+    have hstep := C04_source_inv c E hs l op h
+    simp only [srcStates, List.mem_cons] at hsm
+    cases hr : PyL.runTraitListObjectOp Generated.listHelpers Generated.traitListProg
+        Generated.traitListObjectProg c E l op with
+    | done items r evs =>
+      rw [hr] at hstep hsm
+      simp only at hstep hsm
+      rcases hsm with rfl | hsm
+      · exact hstep
+      · exact ih items hstep s hsm
+    | raised e items evs =>
+      rw [hr] at hstep hsm
+      simp only at hstep hsm
+      obtain ⟨rfl, _⟩ := hstep
+      rcases hsm with rfl | hsm
+      · exact h
+      · exact ih _ h s hsm
+
 /-! ### Nested containers -/
 
 /-- The invariant for any element predicate `P` that every validator output
@@ -473,6 +510,20 @@ def cfg13 : LenCfg := ⟨1, 3⟩
 def rejNeg : Env Int :=
   { v := fun _ x => if x < 0 then .error .traitError else .ok x, eq := (· == ·),
     sort := fun _ l => l.mergeSort (· ≤ ·) }
+
+/-- The interpreted source on concrete inputs (kernel evaluation of the
+interpreter on `Generated/ListProg.lean`): an accepted `append`, an `append`
+rejected by the length guard (list and event log untouched), and a reversed
+extended-slice assignment with its normalised event. -/
+example :
+    PyL.runTraitListObjectOp Generated.listHelpers Generated.traitListProg Generated.traitListObjectProg
+      cfg13 rejNeg [1, 2] (.append 5) = .done [1, 2, 5] none [⟨.idx 2, [], [5]⟩]
+    ∧ PyL.runTraitListObjectOp Generated.listHelpers Generated.traitListProg Generated.traitListObjectProg
+      cfg13 rejNeg [1, 2, 3] (.append 5) = .raised .traitError [1, 2, 3] []
+    ∧ PyL.runTraitListObjectOp Generated.listHelpers Generated.traitListProg Generated.traitListObjectProg
+      cfg13 rejNeg [1, 2, 3] (.setSlice ⟨none, none, some (-2)⟩ [7, 8])
+        = .done [8, 2, 7] none [⟨.slc 0 3 2, [1, 3], [8, 7]⟩] :=
+  ⟨rfl, rfl, rfl⟩
 
 /-- A reachable state meeting `Inv`, an accepted and two rejected operations. -/
 example : Inv cfg13 rejNeg [1, 2] := by
